@@ -232,7 +232,6 @@ class VTKWriter:
                 nodalFields[field] = fieldRecord
 
             if len(self.spheres) > 0:
-                nnodes = self.mesh.coords.shape[0]
                 vals = np.zeros( (nnodes,) )
                 vals = np.hstack( (vals, np.array(self.sphereRadii) ) )
                 nodalFields['sphere_radius'] = self.VTKFieldRecord(vals.reshape(vals.shape[0],1),
